@@ -131,9 +131,9 @@ impl Check for C08 {
     fn cases(&self, tier: Tier) -> u64 {
         match (tier, self.threads_only) {
             (Tier::Quick, false) => 5_000,
-            (Tier::Thorough, false) => 250_000,
+            (Tier::Thorough, false) => 40_000,
             (Tier::Quick, true) => 250,
-            (Tier::Thorough, true) => 20_000,
+            (Tier::Thorough, true) => 2_000,
         }
     }
     fn langs(&self) -> Vec<&'static str> {
